@@ -535,7 +535,7 @@ EXPORT errno_t _wcsnorm_decompose_s_chk(wchar_t *restrict dest, rsize_t dmax,
         invoke_safe_str_constraint_handler("wcsnorm_s: "
                                            "dmax is 0",
                                            dest, ESZEROL);
-        *dest = 0;
+        /* nothing of dest may be written */
         return RCNEGATE(ESZEROL);
     }
     if (unlikely(dmax < 5)) {
